@@ -1,8 +1,599 @@
-(* C19 — facts about the binary64 model that are established by evaluation of the model inside the kernel. *)
-From Coq Require Import ZArith PrimFloat Uint63 FloatOps SpecFloat.
+(* C19 — proofs about the binary64 MODEL (Models/HeadingF.v).
+   Bridge to Flocq (Flocq.IEEE754.PrimFloat: Prim2B, add_equiv, sub_equiv, ...; BinarySingleNaN: Bplus_correct,
+   Bminus_correct, Bpred_correct, comparisons), then:
+     - Heading_fmod is C fmod: exact, sign of the dividend, magnitude below the divisor (fmod_R);
+     - sums/differences are monotone and finiteness carries from the two ends of an interval to anything in
+       between (add_sandwich, sub_sandwich), so overflow questions reduce to evaluating the operation on
+       +-DBL_MAX and the constants;
+     - range and congruence-up-to-rounding of the wrap idiom fmod(fmod(a, P) + P, P), generically in the
+       constants, instantiated for degrees (90/180/360) and radians (math.pi/2, math.pi, 2*math.pi) with the
+       side conditions on constants discharged by computation on primitive floats. *)
+From Coq Require Import ZArith Lia Lra Reals Floats SpecFloat.
+From Flocq Require Import Core.Zaux Core.Raux Core.Defs Core.Digits Core.Float_prop Core.Generic_fmt Core.FLT Core.Ulp Core.Round_NE IEEE754.BinarySingleNaN IEEE754.PrimFloat.
 From FEC Require Import Generated.HeadingConsts Models.HeadingF.
-Open Scope float_scope.
 
+(* ---------------------------------------------------------------- *)
+Lemma shl_align_Z : forall r e k, (0 <= k)%Z ->
+  exists m', shl_align r e (e - k) = (m', (e - k)%Z) /\ Zpos m' = (Zpos r * 2 ^ k)%Z.
+Proof.
+  intros r e k Hk. unfold shl_align. replace (e - k - e)%Z with (- k)%Z by lia.
+  destruct k as [|p|p]; try lia.
+  - exists r. split. now rewrite Z.sub_0_r. simpl. lia.
+  - simpl. exists (shift_pos p r). split. reflexivity. rewrite shift_pos_correct, Z.pow_pos_fold. apply Z.mul_comm.
+Qed.
+
+Lemma canon_SF : forall s r e, (-1074 <= e <= 971)%Z -> (Zpos r < 2 ^ 53)%Z ->
+  exists m' e', Prim2SF (Heading_canon s r e) = S754_finite s m' e' /\
+                exists k, (0 <= k)%Z /\ Zpos m' = (Zpos r * 2 ^ k)%Z /\ e' = (e - k)%Z.
+Proof.
+  intros s r e He Hr. unfold Heading_canon.
+  assert (Hd : (1 <= Zpos (digits2_pos r) <= 53)%Z).
+  { split. lia. rewrite Zpos_digits2_pos. apply Zdigits_le_Zpower. simpl Z.abs. exact Hr. }
+  set (d := Zpos (digits2_pos r)) in *.
+  change prec with 53%Z. change emax with 1024%Z.
+  set (k := Z.min (53 - d) (e - (3 - 1024 - 53))).
+  assert (Hk : (0 <= k)%Z) by lia.
+  destruct (Z.ltb_spec k 0); [lia|].
+  destruct (shl_align_Z r e k Hk) as [m' [E Hm']]. rewrite E.
+  exists m', (e - k)%Z. split; [|exists k; auto].
+  apply Prim2SF_SF2Prim.
+  unfold FloatAxioms.valid_binary, valid_binary, bounded, canonical_mantissa.
+  assert (Hdm : Zpos (digits2_pos m') = (d + k)%Z).
+  { rewrite Zpos_digits2_pos, Hm'. change 2%Z with (radix_val radix2).
+    rewrite Zdigits_mult_Zpower by lia. unfold d. now rewrite Zpos_digits2_pos. }
+  rewrite Hdm. apply andb_true_intro. split.
+  - apply Zeq_bool_true. unfold fexp, emin. change prec with 53%Z. change emax with 1024%Z. lia.
+  - apply Z.leb_le. change prec with 53%Z. change emax with 1024%Z. lia.
+Qed.
+
+(* ---------------------------------------------------------------- *)
+Open Scope R_scope.
+
+(* the real value of a primitive float (0 for NaN and infinities, as in Flocq) *)
+Definition FR (f : Floats.PrimFloat.float) : R := B2R (Prim2B f).
+Definition fin (f : Floats.PrimFloat.float) : Prop := PrimFloat.is_finite f = true.
+Definition dyad (z e : Z) : R := IZR z * bpow radix2 e.
+
+Lemma Prim2B_SF_finite : forall f s m e, Prim2SF f = S754_finite s m e ->
+  exists H, Prim2B f = B754_finite s m e H.
+Proof.
+  intros f s m e E. pose proof (B2SF_Prim2B f) as H. rewrite E in H.
+  destruct (Prim2B f) as [s'|s'| |s' m' e' H']; simpl in H; try discriminate.
+  inversion H; subst. now exists H'.
+Qed.
+Lemma Prim2B_SF_zero : forall f s, Prim2SF f = S754_zero s -> Prim2B f = B754_zero s.
+Proof.
+  intros f s E. pose proof (B2SF_Prim2B f) as H. rewrite E in H.
+  destruct (Prim2B f) as [s'|s'| |s' m' e' H']; simpl in H; try discriminate. now inversion H.
+Qed.
+
+Lemma FR_SF_finite : forall f s m e, Prim2SF f = S754_finite s m e -> fin f /\ FR f = dyad (cond_Zopp s (Zpos m)) e.
+Proof.
+  intros f s m e E. destruct (Prim2B_SF_finite f s m e E) as [H P].
+  unfold fin, FR. rewrite is_finite_equiv, P. split. reflexivity. reflexivity.
+Qed.
+Lemma FR_SF_zero : forall f s, Prim2SF f = S754_zero s -> fin f /\ FR f = 0.
+Proof.
+  intros f s E. unfold fin, FR. rewrite is_finite_equiv, (Prim2B_SF_zero f s E). split; reflexivity.
+Qed.
+
+Lemma fin_cases : forall f, fin f ->
+  (exists s, Prim2SF f = S754_zero s) \/ (exists s m e, Prim2SF f = S754_finite s m e).
+Proof.
+  intros f H. unfold fin in H. rewrite is_finite_equiv in H.
+  pose proof (B2SF_Prim2B f) as E.
+  destruct (Prim2B f) as [s'|s'| |s' m' e' H']; simpl in *; try discriminate.
+  left; eauto. right; eauto.
+Qed.
+
+Lemma SF_bounds : forall f s m e, Prim2SF f = S754_finite s m e -> (-1074 <= e <= 971)%Z /\ (Zpos m < 2 ^ 53)%Z.
+Proof.
+  intros f s m e E. pose proof (Prim2SF_valid f) as V. rewrite E in V.
+  unfold FloatAxioms.valid_binary, valid_binary, bounded, canonical_mantissa in V.
+  apply andb_prop in V. destruct V as [V1 V2].
+  apply Zeq_bool_eq in V1. apply Z.leb_le in V2.
+  unfold fexp, emin in V1. change prec with 53%Z in *. change emax with 1024%Z in *.
+  split. lia.
+  assert (Hd : (Zpos (digits2_pos m) <= 53)%Z) by lia.
+  rewrite Zpos_digits2_pos in Hd.
+  pose proof (Zdigits_correct radix2 (Zpos m)) as [_ Hc]. simpl Z.abs in Hc.
+  eapply Z.lt_le_trans. apply Hc. change (radix2 : Z) with 2%Z.
+  apply Z.pow_le_mono_r; lia.
+Qed.
+
+Lemma D_shift : forall z e k, (0 <= k)%Z -> dyad (z * 2 ^ k) (e - k) = dyad z e.
+Proof.
+  intros z e k Hk. unfold dyad. rewrite mult_IZR. change 2%Z with (radix_val radix2).
+  rewrite IZR_Zpower by assumption. rewrite Rmult_assoc, <- bpow_plus. f_equal. f_equal. lia.
+Qed.
+Lemma D_opp : forall s z e, dyad (cond_Zopp s z) e = if s then - dyad z e else dyad z e.
+Proof. intros [|] z e; unfold dyad; simpl. rewrite opp_IZR. ring. reflexivity. Qed.
+Lemma D_lt : forall a b e, (a < b)%Z -> dyad a e < dyad b e.
+Proof. intros. unfold dyad. apply Rmult_lt_compat_r. apply bpow_gt_0. now apply IZR_lt. Qed.
+Lemma D_le : forall a b e, (a <= b)%Z -> dyad a e <= dyad b e.
+Proof. intros. unfold dyad. apply Rmult_le_compat_r. apply bpow_ge_0. now apply IZR_le. Qed.
+Lemma D_0 : forall e, dyad 0 e = 0.
+Proof. intros. unfold dyad. simpl. ring. Qed.
+
+(* fmod on two finite non-zero numbers, at the level of SpecFloat *)
+Lemma fmod_SF : forall a b sa ma ea sb mb eb,
+  Prim2SF a = S754_finite sa ma ea -> Prim2SF b = S754_finite sb mb eb ->
+  let e := Z.min ea eb in
+  let A := (Zpos ma * 2 ^ (ea - e))%Z in let B := (Zpos mb * 2 ^ (eb - e))%Z in
+  fin (Heading_fmod a b) /\ FR (Heading_fmod a b) = dyad (cond_Zopp sa (A mod B)) e.
+Proof.
+  intros a b sa ma ea sb mb eb Ea Eb e A B.
+  destruct (SF_bounds _ _ _ _ Ea) as [Hea Hma]. destruct (SF_bounds _ _ _ _ Eb) as [Heb Hmb].
+  unfold Heading_fmod. rewrite Ea, Eb. fold e. fold A. fold B.
+  assert (HA : (0 < A)%Z) by (unfold A; apply Z.mul_pos_pos; [lia | apply Z.pow_pos_nonneg; lia]).
+  assert (HB : (0 < B)%Z) by (unfold B; apply Z.mul_pos_pos; [lia | apply Z.pow_pos_nonneg; lia]).
+  pose proof (Z.mod_pos_bound A B HB) as HR.
+  assert (HR53 : (A mod B < 2 ^ 53)%Z).
+  { destruct (Z.le_ge_cases ea eb).
+    - assert (e = ea) by lia. assert (A = Zpos ma) by (unfold A; rewrite H0, Z.sub_diag; simpl; lia).
+      pose proof (Z.mod_le A B). lia.
+    - assert (e = eb) by lia. assert (B = Zpos mb) by (unfold B; rewrite H0, Z.sub_diag; simpl; lia). lia. }
+  destruct (A mod B)%Z as [|r|r] eqn:ER; try lia.
+  - destruct sa.
+    + destruct (FR_SF_zero neg_zero true eq_refl) as [F1 F2]. split. exact F1. rewrite F2. simpl. now rewrite D_0.
+    + destruct (FR_SF_zero zero false eq_refl) as [F1 F2]. split. exact F1. rewrite F2. simpl. now rewrite D_0.
+  - assert (He : (-1074 <= e <= 971)%Z) by lia.
+    destruct (canon_SF sa r e He HR53) as [m' [e' [E [k [Hk [Hm' He']]]]]].
+    destruct (FR_SF_finite _ _ _ _ E) as [F1 F2]. split. exact F1.
+    rewrite F2, !D_opp. subst e'. rewrite Hm'. now rewrite D_shift.
+Qed.
+
+(* ---------------------------------------------------------------- *)
+Open Scope R_scope.
+
+(* C fmod on finite arguments with a positive divisor: exact, sign of the dividend, magnitude below the divisor *)
+Lemma fmod_R : forall a b, fin a -> fin b -> 0 < FR b ->
+  let r := Heading_fmod a b in
+  fin r /\ Rabs (FR r) < FR b /\ (0 <= FR a -> 0 <= FR r) /\ (FR a <= 0 -> FR r <= 0) /\
+  (exists n : Z, FR r = FR a - IZR n * FR b) /\ Rabs (FR r) <= Rabs (FR a).
+Proof.
+  intros a b Fa Fb Hb r.
+  destruct (fin_cases b Fb) as [[sb Eb]|[sb [mb [eb Eb]]]].
+  { destruct (FR_SF_zero _ _ Eb) as [_ Z]. lra. }
+  destruct (FR_SF_finite _ _ _ _ Eb) as [_ Rb].
+  assert (sb = false).
+  { destruct sb; [|reflexivity]. rewrite Rb, D_opp in Hb.
+    assert (0 < dyad (Zpos mb) eb) by (rewrite <- (D_0 eb); apply D_lt; lia). lra. }
+  subst sb. simpl cond_Zopp in Rb.
+  destruct (fin_cases a Fa) as [[sa Ea]|[sa [ma [ea Ea]]]].
+  { destruct (FR_SF_zero _ _ Ea) as [_ Za].
+    assert (r = a) by (unfold r, Heading_fmod; rewrite Ea, Eb; reflexivity).
+    rewrite H, Za. rewrite Rabs_R0. repeat split; try lra. exact Fa. exists 0%Z. lra. }
+  destruct (FR_SF_finite _ _ _ _ Ea) as [_ Ra].
+  destruct (fmod_SF a b sa ma ea false mb eb Ea Eb) as [Fr Rr]. fold r in Fr, Rr.
+  destruct (SF_bounds _ _ _ _ Ea) as [Hea Hma]. destruct (SF_bounds _ _ _ _ Eb) as [Heb Hmb].
+  set (e := Z.min ea eb) in *.
+  set (A := (Zpos ma * 2 ^ (ea - e))%Z) in *. set (B := (Zpos mb * 2 ^ (eb - e))%Z) in *.
+  assert (HA : (0 < A)%Z) by (unfold A; apply Z.mul_pos_pos; [lia | apply Z.pow_pos_nonneg; lia]).
+  assert (HB : (0 < B)%Z) by (unfold B; apply Z.mul_pos_pos; [lia | apply Z.pow_pos_nonneg; lia]).
+  assert (RA : dyad (Zpos ma) ea = dyad A e).
+  { unfold A. rewrite <- (D_shift (Zpos ma) ea (ea - e)) by lia. f_equal. lia. }
+  assert (RB : FR b = dyad B e).
+  { rewrite Rb. unfold B. rewrite <- (D_shift (Zpos mb) eb (eb - e)) by lia. f_equal. lia. }
+  pose proof (Z.mod_pos_bound A B HB) as HR.
+  pose proof (Z.div_mod A B ltac:(lia)) as HDM.
+  pose proof (Z.mod_le A B ltac:(lia) HB) as HLE.
+  set (R := (A mod B)%Z) in *. set (q := (A / B)%Z) in *.
+  assert (P0 : 0 <= dyad R e) by (rewrite <- (D_0 e); apply D_le; lia).
+  assert (P1 : dyad R e < dyad B e) by (apply D_lt; lia).
+  assert (P2 : dyad R e <= dyad A e) by (apply D_le; lia).
+  assert (P3 : dyad A e = IZR q * dyad B e + dyad R e).
+  { unfold dyad. rewrite HDM at 1. rewrite plus_IZR, mult_IZR. ring. }
+  assert (PA : 0 < dyad A e) by (rewrite <- (D_0 e); apply D_lt; lia).
+  rewrite D_opp in Rr, Ra. rewrite RA in Ra. rewrite RB.
+  split. exact Fr.
+  destruct sa; rewrite Rr, Ra.
+  - rewrite Rabs_Ropp, (Rabs_pos_eq _ P0). rewrite Rabs_Ropp, (Rabs_pos_eq (dyad A e)) by lra.
+    repeat split; try lra. exists (- q)%Z. rewrite opp_IZR. lra.
+  - rewrite (Rabs_pos_eq _ P0), (Rabs_pos_eq (dyad A e)) by lra.
+    repeat split; try lra. exists q. lra.
+Qed.
+
+(* ---------------------------------------------------------------- *)
+Open Scope R_scope.
+
+Local Notation rnd := (round radix2 (fexp prec emax) (round_mode mode_NE)).
+
+Lemma rnd_le : forall x y, x <= y -> rnd x <= rnd y.
+Proof. intros. apply round_le; auto with typeclass_instances. apply fexp_correct. exact Hprec. Qed.
+
+Lemma fin_B : forall f, fin f <-> is_finite (Prim2B f) = true.
+Proof. intro f. unfold fin. now rewrite is_finite_equiv. Qed.
+
+Lemma overflow_not_finite : forall (b : binary_float prec emax) s, B2SF b = binary_overflow prec emax mode_NE s -> is_finite b = true -> False.
+Proof.
+  intros b s E F. rewrite <- is_finite_SF_B2SF, E in F. discriminate.
+Qed.
+
+(* x + y, when it does not overflow, is the rounded exact sum; finiteness of the result tells there was no overflow *)
+Lemma add_fin_inv : forall x y, fin x -> fin y -> fin (x + y)%float ->
+  FR (x + y)%float = rnd (FR x + FR y) /\ Rabs (rnd (FR x + FR y)) < bpow radix2 emax.
+Proof.
+  intros x y Fx Fy Fs. apply fin_B in Fx, Fy, Fs. unfold FR. rewrite add_equiv in *.
+  generalize (Bplus_correct prec emax Hprec Hmax mode_NE _ _ Fx Fy).
+  destruct (Rlt_bool_spec (Rabs (rnd (B2R (Prim2B x) + B2R (Prim2B y)))) (bpow radix2 emax)) as [L|L].
+  - intros [H _]. now split.
+  - intros [H _]. exfalso. eapply overflow_not_finite; eassumption.
+Qed.
+Lemma add_fin_intro : forall x y, fin x -> fin y -> Rabs (rnd (FR x + FR y)) < bpow radix2 emax ->
+  fin (x + y)%float /\ FR (x + y)%float = rnd (FR x + FR y).
+Proof.
+  intros x y Fx Fy L. apply fin_B in Fx, Fy. rewrite fin_B. unfold FR in *. rewrite add_equiv.
+  generalize (Bplus_correct prec emax Hprec Hmax mode_NE _ _ Fx Fy).
+  rewrite Rlt_bool_true by exact L. intros [H1 [H2 _]]. now split.
+Qed.
+Lemma sub_fin_inv : forall x y, fin x -> fin y -> fin (x - y)%float ->
+  FR (x - y)%float = rnd (FR x - FR y) /\ Rabs (rnd (FR x - FR y)) < bpow radix2 emax.
+Proof.
+  intros x y Fx Fy Fs. apply fin_B in Fx, Fy, Fs. unfold FR. rewrite sub_equiv in *.
+  generalize (Bminus_correct prec emax Hprec Hmax mode_NE _ _ Fx Fy).
+  destruct (Rlt_bool_spec (Rabs (rnd (B2R (Prim2B x) - B2R (Prim2B y)))) (bpow radix2 emax)) as [L|L].
+  - intros [H _]. now split.
+  - intros [H _]. exfalso. eapply overflow_not_finite; eassumption.
+Qed.
+Lemma sub_fin_intro : forall x y, fin x -> fin y -> Rabs (rnd (FR x - FR y)) < bpow radix2 emax ->
+  fin (x - y)%float /\ FR (x - y)%float = rnd (FR x - FR y).
+Proof.
+  intros x y Fx Fy L. apply fin_B in Fx, Fy. rewrite fin_B. unfold FR in *. rewrite sub_equiv.
+  generalize (Bminus_correct prec emax Hprec Hmax mode_NE _ _ Fx Fy).
+  rewrite Rlt_bool_true by exact L. intros [H1 [H2 _]]. now split.
+Qed.
+
+Lemma abs_between : forall lo v hi M, lo <= v <= hi -> Rabs lo < M -> Rabs hi < M -> Rabs v < M.
+Proof.
+  intros lo v hi M [H1 H2] Hl Hh. apply Rabs_def1.
+  - apply Rle_lt_trans with hi. exact H2. apply Rle_lt_trans with (Rabs hi). apply RRle_abs. exact Hh.
+  - apply Rlt_le_trans with lo; [|exact H1]. apply Rabs_def2 in Hl. tauto.
+Qed.
+
+(* monotonicity of the rounded sum / difference, carrying finiteness from the two ends to anything in between *)
+Lemma add_sandwich : forall x1 x x2 y1 y y2,
+  fin x1 -> fin x -> fin x2 -> fin y1 -> fin y -> fin y2 ->
+  FR x1 <= FR x <= FR x2 -> FR y1 <= FR y <= FR y2 ->
+  fin (x1 + y1)%float -> fin (x2 + y2)%float ->
+  fin (x + y)%float /\ FR (x1 + y1)%float <= FR (x + y)%float <= FR (x2 + y2)%float.
+Proof.
+  intros x1 x x2 y1 y y2 F1 F F2 G1 G G2 Hx Hy S1 S2.
+  destruct (add_fin_inv _ _ F1 G1 S1) as [E1 L1]. destruct (add_fin_inv _ _ F2 G2 S2) as [E2 L2].
+  assert (B : rnd (FR x1 + FR y1) <= rnd (FR x + FR y) <= rnd (FR x2 + FR y2)) by (split; apply rnd_le; lra).
+  destruct (add_fin_intro x y F G) as [S E]. eapply abs_between; eassumption.
+  split. exact S. rewrite E1, E2, E. exact B.
+Qed.
+Lemma sub_sandwich : forall x1 x x2 y1 y y2,
+  fin x1 -> fin x -> fin x2 -> fin y1 -> fin y -> fin y2 ->
+  FR x1 <= FR x <= FR x2 -> FR y1 <= FR y <= FR y2 ->
+  fin (x1 - y2)%float -> fin (x2 - y1)%float ->
+  fin (x - y)%float /\ FR (x1 - y2)%float <= FR (x - y)%float <= FR (x2 - y1)%float.
+Proof.
+  intros x1 x x2 y1 y y2 F1 F F2 G1 G G2 Hx Hy S1 S2.
+  destruct (sub_fin_inv _ _ F1 G2 S1) as [E1 L1]. destruct (sub_fin_inv _ _ F2 G1 S2) as [E2 L2].
+  assert (B : rnd (FR x1 - FR y2) <= rnd (FR x - FR y) <= rnd (FR x2 - FR y1)) by (split; apply rnd_le; lra).
+  destruct (sub_fin_intro x y F G) as [S E]. eapply abs_between; eassumption.
+  split. exact S. rewrite E1, E2, E. exact B.
+Qed.
+
+(* comparisons *)
+Lemma leb_R : forall x y, fin x -> fin y -> ((x <=? y)%float = true <-> FR x <= FR y).
+Proof.
+  intros x y Fx Fy. apply fin_B in Fx, Fy. rewrite leb_equiv, Bleb_correct by assumption. unfold FR.
+  destruct (Rle_bool_spec (B2R (Prim2B x)) (B2R (Prim2B y))); split; intros; try lra; try reflexivity; discriminate.
+Qed.
+Lemma ltb_R : forall x y, fin x -> fin y -> ((x <? y)%float = true <-> FR x < FR y).
+Proof.
+  intros x y Fx Fy. apply fin_B in Fx, Fy. rewrite ltb_equiv, Bltb_correct by assumption. unfold FR.
+  destruct (Rlt_bool_spec (B2R (Prim2B x)) (B2R (Prim2B y))); split; intros; try lra; try reflexivity; discriminate.
+Qed.
+
+(* every finite value lies between -DBL_MAX and DBL_MAX *)
+Definition dbl_max : Floats.PrimFloat.float := 0x1.fffffffffffffp+1023%float.
+Lemma fin_le_max : forall x, fin x -> FR (- dbl_max)%float <= FR x <= FR dbl_max.
+Proof.
+  intros x Fx.
+  assert (M : FR dbl_max = bpow radix2 emax - bpow radix2 (emax - prec)).
+  { destruct (FR_SF_finite dbl_max false 9007199254740991 971 eq_refl) as [_ E]. rewrite E. unfold dyad. simpl cond_Zopp.
+    change emax with 1024%Z. change prec with 53%Z. change (1024 - 53)%Z with 971%Z.
+    replace (bpow radix2 1024) with (IZR (2 ^ 53) * bpow radix2 971).
+    2:{ change 2%Z with (radix_val radix2). rewrite IZR_Zpower by lia. rewrite <- bpow_plus. reflexivity. }
+    change (2 ^ 53)%Z with 9007199254740992%Z. replace 9007199254740992 with (9007199254740991 + 1) by lra. ring. }
+  assert (M' : FR (- dbl_max)%float = - FR dbl_max).
+  { unfold FR. rewrite opp_equiv. apply B2R_Bopp. }
+  pose proof (abs_B2R_le_emax_minus_prec prec emax Hprec (Prim2B x)) as H. fold (FR x) in H.
+  rewrite M', M. apply Rabs_le_inv. exact H.
+Qed.
+
+(* x < y between floats means x <= pred y *)
+Lemma lt_le_next_down : forall x y, fin x -> fin y -> fin (next_down y) -> FR x < FR y -> FR x <= FR (next_down y).
+Proof.
+  intros x y Fx Fy Fp L. apply fin_B in Fy. pose proof Fp as Fp'. apply fin_B in Fp'. rewrite next_down_equiv in Fp'.
+  generalize (Bpred_correct prec emax Hprec Hmax _ Fy).
+  destruct (Rlt_bool_spec (- bpow radix2 emax) (pred radix2 (fexp prec emax) (B2R (Prim2B y)))).
+  - intros [E _]. unfold FR at 2. rewrite next_down_equiv, E. apply pred_ge_gt.
+    apply fexp_correct; exact Hprec. apply generic_format_B2R. apply generic_format_B2R. exact L.
+  - intros E. exfalso. rewrite <- is_finite_SF_B2SF, E in Fp'. discriminate.
+Qed.
+
+(* ---------------------------------------------------------------- *)
+Open Scope R_scope.
+
+Lemma FR_zero : FR 0%float = 0.
+Proof. now destruct (FR_SF_zero zero false eq_refl). Qed.
+Lemma fin_zero : fin 0%float.
+Proof. reflexivity. Qed.
+Lemma FR_opp : forall x, FR (- x)%float = - FR x.
+Proof. intro x. unfold FR. rewrite opp_equiv. apply B2R_Bopp. Qed.
+Lemma fin_opp : forall x, fin x -> fin (- x)%float.
+Proof. intros x F. apply fin_B. apply fin_B in F. rewrite opp_equiv, is_finite_Bopp. exact F. Qed.
+
+Lemma rnd_0 : rnd 0 = 0.
+Proof. apply round_0. auto with typeclass_instances. Qed.
+
+(* -P + P = 0 *)
+Lemma opp_add_self : forall P, fin P -> fin (- P + P)%float /\ FR (- P + P)%float = 0.
+Proof.
+  intros P F. pose proof (fin_opp P F) as F'.
+  destruct (add_fin_intro (- P)%float P F' F) as [S E].
+  - rewrite FR_opp. replace (- FR P + FR P) with 0 by ring. rewrite rnd_0, Rabs_R0. apply bpow_gt_0.
+  - split. exact S. rewrite E, FR_opp. replace (- FR P + FR P) with 0 by ring. apply rnd_0.
+Qed.
+
+(* the wrap idiom of the repaired code: fmod(fmod(a, P) + P, P) lies in [0, P) for every finite a *)
+Lemma wrap_range : forall P a, fin P -> 0 < FR P -> fin (P + P)%float -> fin a ->
+  let r := Heading_fmod (Heading_fmod a P + P) P in fin r /\ 0 <= FR r < FR P.
+Proof.
+  intros P a FP HP FPP Fa r.
+  destruct (fmod_R a P Fa FP HP) as [F1 [B1 _]]. set (r1 := Heading_fmod a P) in *.
+  apply Rabs_def2 in B1.
+  destruct (opp_add_self P FP) as [S0 E0].
+  destruct (add_sandwich (- P)%float r1 P P P P) as [F2 [L2 U2]]; auto using fin_opp.
+  rewrite FR_opp; lra. lra.
+  rewrite E0 in L2.
+  destruct (fmod_R (r1 + P)%float P F2 FP HP) as [F3 [B3 [N3 _]]]. fold r in F3, B3, N3.
+  split. exact F3. apply Rabs_def2 in B3. split. apply N3, L2. lra.
+Qed.
+
+Definition istrue (b : bool) : Prop := b = true.
+
+Lemma y2h_range_gen : forall c P x : Floats.PrimFloat.float,
+  istrue (Floats.PrimFloat.is_finite c) -> istrue (Floats.PrimFloat.is_finite P) -> istrue (0 <? P)%float -> istrue (Floats.PrimFloat.is_finite (P + P)) ->
+  istrue (Floats.PrimFloat.is_finite (c - dbl_max)) -> istrue (Floats.PrimFloat.is_finite (c - (- dbl_max))) ->
+  fin x ->
+  let r := Heading_fmod (Heading_fmod (c - x) P + P) P in
+  fin r /\ (0 <=? r)%float = true /\ (r <? P)%float = true.
+Proof.
+  intros c P x Fc FP HP FPP S1 S2 Fx r. unfold istrue in *.
+  assert (HP' : 0 < FR P) by (rewrite <- FR_zero; apply ltb_R; auto using fin_zero).
+  assert (Fa : fin (c - x)%float).
+  { destruct (fin_le_max x Fx).
+    destruct (sub_sandwich c c c (- dbl_max)%float x dbl_max) as [F _]; auto; try lra.
+    apply fin_opp; reflexivity. reflexivity. }
+  destruct (wrap_range P (c - x)%float FP HP' FPP Fa) as [Fr [L U]]. fold r in Fr, L, U.
+  split. exact Fr. split. apply leb_R; auto using fin_zero. apply ltb_R; auto.
+Qed.
+
+Lemma h2y_range_gen : forall c h P x : Floats.PrimFloat.float,
+  istrue (Floats.PrimFloat.is_finite c) -> istrue (Floats.PrimFloat.is_finite h) -> istrue (Floats.PrimFloat.is_finite P) -> istrue (0 <? P)%float -> istrue (Floats.PrimFloat.is_finite (P + P)) ->
+  istrue (Floats.PrimFloat.is_finite (c - dbl_max)) -> istrue (Floats.PrimFloat.is_finite (c - (- dbl_max))) ->
+  istrue (Floats.PrimFloat.is_finite (- dbl_max + h)) -> istrue (Floats.PrimFloat.is_finite (dbl_max + h)) ->
+  istrue (Floats.PrimFloat.is_finite (next_down P)) -> istrue (Floats.PrimFloat.is_finite (0 - h)) -> istrue (Floats.PrimFloat.is_finite (next_down P - h)) ->
+  istrue (- h <=? 0 - h)%float -> istrue (next_down P - h <? h)%float ->
+  fin x ->
+  let r := (Heading_fmod (Heading_fmod (c - x + h) P + P) P - h)%float in
+  fin r /\ (- h <=? r)%float = true /\ (r <? h)%float = true.
+Proof.
+  intros c h P x Fc Fh FP HP FPP S1 S2 S3 S4 FN T1 T2 C1 C2 Fx r. unfold istrue in *.
+  assert (HP' : 0 < FR P) by (rewrite <- FR_zero; apply ltb_R; auto using fin_zero).
+  assert (FM : fin dbl_max) by reflexivity. assert (FM' : fin (- dbl_max)%float) by reflexivity.
+  assert (Fa : fin (c - x)%float).
+  { destruct (fin_le_max x Fx).
+    destruct (sub_sandwich c c c (- dbl_max)%float x dbl_max) as [F _]; auto; lra. }
+  assert (Fb : fin (c - x + h)%float).
+  { destruct (fin_le_max _ Fa).
+    destruct (add_sandwich (- dbl_max)%float (c - x)%float dbl_max h h h) as [F _]; auto; lra. }
+  destruct (wrap_range P (c - x + h)%float FP HP' FPP Fb) as [Ft [L U]].
+  set (t := Heading_fmod (Heading_fmod (c - x + h) P + P) P) in *.
+  pose proof (lt_le_next_down t P Ft FP FN U) as U'.
+  destruct (sub_sandwich 0%float t (next_down P) h h h) as [Fr [Lr Ur]]; auto using fin_zero; try lra.
+  fold r in Fr, Lr, Ur.
+  assert (Fnh : fin (- h)%float) by (apply fin_opp; exact Fh).
+  split. exact Fr. split.
+  - apply leb_R; auto. apply (leb_R (- h)%float (0 - h)%float Fnh T1) in C1. lra.
+  - apply ltb_R; auto. apply (ltb_R _ _ T2 Fh) in C2. lra.
+Qed.
+
+(* ---------------------------------------------------------------- *)
+Open Scope R_scope.
+
+Local Notation u := (ulp radix2 (fexp prec emax)).
+
+Lemma rnd_err : forall x, Rabs (rnd x - x) <= / 2 * u x.
+Proof. intro x. apply error_le_half_ulp. apply fexp_correct. exact Hprec. Qed.
+Lemma u_le : forall x y, Rabs x <= Rabs y -> u x <= u y.
+Proof. intros. apply ulp_le; auto. apply fexp_correct; exact Hprec. apply fexp_monotone. Qed.
+
+(* fmod(fmod(a,P)+P,P) is a modulo P up to the rounding of the one addition *)
+Lemma wrap_close : forall P a, fin P -> 0 < FR P -> fin (P + P)%float -> fin a ->
+  let r := Heading_fmod (Heading_fmod a P + P) P in
+  exists n : Z, Rabs (FR r - FR a - IZR n * FR P) <= / 2 * u (FR P + FR P).
+Proof.
+  intros P a FP HP FPP Fa r.
+  destruct (fmod_R a P Fa FP HP) as [F1 [B1 [_ [_ [[n1 E1] _]]]]]. set (r1 := Heading_fmod a P) in *.
+  apply Rabs_def2 in B1.
+  destruct (opp_add_self P FP) as [S0 E0].
+  destruct (add_sandwich (- P)%float r1 P P P P) as [F2 _]; auto using fin_opp.
+  rewrite FR_opp; lra. lra.
+  destruct (add_fin_inv r1 P F1 FP F2) as [E2 _].
+  destruct (fmod_R (r1 + P)%float P F2 FP HP) as [_ [_ [_ [_ [[n2 E3] _]]]]]. fold r in E3.
+  exists (1 - n1 - n2)%Z. rewrite E3, E2. rewrite !minus_IZR.
+  replace (rnd (FR r1 + FR P) - IZR n2 * FR P - FR a - (1 - IZR n1 - IZR n2) * FR P)
+     with (rnd (FR r1 + FR P) - (FR r1 + FR P)) by (rewrite E1; ring).
+  eapply Rle_trans. apply rnd_err. apply Rmult_le_compat_l. lra. apply u_le.
+  rewrite !Rabs_pos_eq by lra. lra.
+Qed.
+
+Lemma y2h_close_gen : forall c P x : Floats.PrimFloat.float,
+  istrue (Floats.PrimFloat.is_finite c) -> istrue (Floats.PrimFloat.is_finite P) -> istrue (0 <? P)%float -> istrue (Floats.PrimFloat.is_finite (P + P)) ->
+  istrue (Floats.PrimFloat.is_finite (c - dbl_max)) -> istrue (Floats.PrimFloat.is_finite (c - (- dbl_max))) ->
+  fin x ->
+  let r := Heading_fmod (Heading_fmod (c - x) P + P) P in
+  exists n : Z, Rabs (FR r - (FR c - FR x) - IZR n * FR P) <= / 2 * u (FR c - FR x) + / 2 * u (FR P + FR P).
+Proof.
+  intros c P x Fc FP HP FPP S1 S2 Fx r. unfold istrue in *.
+  assert (HP' : 0 < FR P) by (rewrite <- FR_zero; apply ltb_R; auto using fin_zero).
+  assert (Fa : fin (c - x)%float).
+  { destruct (fin_le_max x Fx).
+    destruct (sub_sandwich c c c (- dbl_max)%float x dbl_max) as [F _]; auto; try lra.
+    apply fin_opp; reflexivity. reflexivity. }
+  destruct (sub_fin_inv c x Fc Fx Fa) as [Ea _].
+  destruct (wrap_close P (c - x)%float FP HP' FPP Fa) as [n Hn]. fold r in Hn.
+  exists n. pose proof (rnd_err (FR c - FR x)) as He. rewrite <- Ea in He.
+  replace (FR r - (FR c - FR x) - IZR n * FR P)
+     with ((FR r - FR (c - x)%float - IZR n * FR P) + (FR (c - x)%float - (FR c - FR x))) by ring.
+  eapply Rle_trans. apply Rabs_triang. lra.
+Qed.
+
+Lemma h2y_close_gen : forall c h P x : Floats.PrimFloat.float,
+  istrue (Floats.PrimFloat.is_finite c) -> istrue (Floats.PrimFloat.is_finite h) -> istrue (Floats.PrimFloat.is_finite P) ->
+  istrue (0 <? P)%float -> istrue (Floats.PrimFloat.is_finite (P + P)) ->
+  istrue (Floats.PrimFloat.is_finite (c - dbl_max)) -> istrue (Floats.PrimFloat.is_finite (c - (- dbl_max))) ->
+  istrue (Floats.PrimFloat.is_finite (- dbl_max + h)) -> istrue (Floats.PrimFloat.is_finite (dbl_max + h)) ->
+  istrue (Floats.PrimFloat.is_finite (next_down P)) -> istrue (Floats.PrimFloat.is_finite (0 - h)) ->
+  istrue (Floats.PrimFloat.is_finite (next_down P - h)) ->
+  istrue (0 <=? h)%float -> istrue (h <=? P)%float ->
+  fin x ->
+  let r := (Heading_fmod (Heading_fmod (c - x + h) P + P) P - h)%float in
+  exists n : Z, Rabs (FR r - (FR c - FR x) - IZR n * FR P) <=
+     / 2 * u (FR c - FR x) + / 2 * u (FR (c - x)%float + FR h) + / 2 * u (FR P + FR P) + / 2 * u (FR P).
+Proof.
+  intros c h P x Fc Fh FP HP FPP S1 S2 S3 S4 FN T1 T2 C1 C2 Fx r. unfold istrue in *.
+  assert (HP' : 0 < FR P) by (rewrite <- FR_zero; apply ltb_R; auto using fin_zero).
+  assert (Hh0 : 0 <= FR h) by (rewrite <- FR_zero; apply leb_R; auto using fin_zero).
+  assert (HhP : FR h <= FR P) by (apply leb_R; auto).
+  assert (FM : fin dbl_max) by reflexivity. assert (FM' : fin (- dbl_max)%float) by reflexivity.
+  assert (Fa : fin (c - x)%float).
+  { destruct (fin_le_max x Fx).
+    destruct (sub_sandwich c c c (- dbl_max)%float x dbl_max) as [F _]; auto; lra. }
+  assert (Fb : fin (c - x + h)%float).
+  { destruct (fin_le_max _ Fa).
+    destruct (add_sandwich (- dbl_max)%float (c - x)%float dbl_max h h h) as [F _]; auto; lra. }
+  destruct (sub_fin_inv c x Fc Fx Fa) as [Ea _].
+  destruct (add_fin_inv _ h Fa Fh Fb) as [Eb _].
+  destruct (wrap_range P (c - x + h)%float FP HP' FPP Fb) as [Ft [L U]].
+  destruct (wrap_close P (c - x + h)%float FP HP' FPP Fb) as [n Hn].
+  set (t := Heading_fmod (Heading_fmod (c - x + h) P + P) P) in *.
+  pose proof (lt_le_next_down t P Ft FP FN U) as U'.
+  destruct (sub_sandwich 0%float t (next_down P) h h h) as [Fr _]; auto using fin_zero; try lra.
+  fold r in Fr.
+  destruct (sub_fin_inv t h Ft Fh Fr) as [Er _]. fold r in Er.
+  exists n.
+  pose proof (rnd_err (FR c - FR x)) as H1. rewrite <- Ea in H1.
+  pose proof (rnd_err (FR (c - x)%float + FR h)) as H2. rewrite <- Eb in H2.
+  pose proof (rnd_err (FR t - FR h)) as H4. rewrite <- Er in H4.
+  assert (H4' : u (FR t - FR h) <= u (FR P)).
+  { apply u_le. rewrite (Rabs_pos_eq (FR P)) by lra. apply Rabs_le. lra. }
+  replace (FR r - (FR c - FR x) - IZR n * FR P)
+     with ((FR r - (FR t - FR h)) + (FR t - FR (c - x + h)%float - IZR n * FR P)
+           + (FR (c - x + h)%float - (FR (c - x)%float + FR h)) + (FR (c - x)%float - (FR c - FR x))) by ring.
+  eapply Rle_trans. apply Rabs_triang. eapply Rle_trans. apply Rplus_le_compat_r. apply Rabs_triang.
+  eapply Rle_trans. apply Rplus_le_compat_r. apply Rplus_le_compat_r. apply Rabs_triang.
+  lra.
+Qed.
+
+(* ---------------------------------------------------------------- *)
+Local Open Scope float_scope.
+Lemma heading_range_deg_f : forall x, PrimFloat.is_finite x = true ->
+  PrimFloat.is_finite (Heading_y2h_deg x) = true /\ (0 <=? Heading_y2h_deg x) = true /\ (Heading_y2h_deg x <? 360) = true.
+Proof. intros x Fx. apply (y2h_range_gen 90 360 x); try exact Fx; vm_compute; reflexivity. Qed.
+Lemma heading_range_rad_f : forall x, PrimFloat.is_finite x = true ->
+  PrimFloat.is_finite (Heading_y2h_rad x) = true /\ (0 <=? Heading_y2h_rad x) = true /\ (Heading_y2h_rad x <? 2 * Heading_pi) = true.
+Proof. intros x Fx. apply (y2h_range_gen (Heading_pi / 2) (2 * Heading_pi) x); try exact Fx; vm_compute; reflexivity. Qed.
+Lemma yaw_range_deg_f : forall x, PrimFloat.is_finite x = true ->
+  PrimFloat.is_finite (Heading_h2y_deg x) = true /\ (-180 <=? Heading_h2y_deg x) = true /\ (Heading_h2y_deg x <? 180) = true.
+Proof. intros x Fx. apply (h2y_range_gen 90 180 360 x); try exact Fx; vm_compute; reflexivity. Qed.
+Lemma yaw_range_rad_f : forall x, PrimFloat.is_finite x = true ->
+  PrimFloat.is_finite (Heading_h2y_rad x) = true /\ (- Heading_pi <=? Heading_h2y_rad x) = true /\ (Heading_h2y_rad x <? Heading_pi) = true.
+Proof. intros x Fx. apply (h2y_range_gen (Heading_pi / 2) Heading_pi (2 * Heading_pi) x); try exact Fx; vm_compute; reflexivity. Qed.
+
+(* ---------------------------------------------------------------- *)
+Open Scope R_scope.
+
+Lemma u_of_bounds : forall x e, bpow radix2 (e - 1) <= Rabs x < bpow radix2 e -> (-1021 <= e)%Z -> u x = bpow radix2 (e - 53).
+Proof.
+  intros x e B He.
+  assert (x <> 0). { intro Z. rewrite Z, Rabs_R0 in B. pose proof (bpow_gt_0 radix2 (e - 1)). lra. }
+  rewrite ulp_neq_0 by assumption. unfold cexp. rewrite (mag_unique radix2 x e B).
+  unfold fexp, emin. change prec with 53%Z. change emax with 1024%Z. f_equal. lia.
+Qed.
+
+Lemma FR_90 : FR 90%float = 90.
+Proof.
+  destruct (FR_SF_finite 90%float false 6333186975989760 (-46) eq_refl) as [_ E]. rewrite E. unfold dyad. simpl cond_Zopp.
+  change (bpow radix2 (-46)) with (/ IZR (2 ^ 46)). change (2 ^ 46)%Z with 70368744177664%Z. lra.
+Qed.
+Lemma FR_180 : FR 180%float = 180.
+Proof.
+  destruct (FR_SF_finite 180%float false 6333186975989760 (-45) eq_refl) as [_ E]. rewrite E. unfold dyad. simpl cond_Zopp.
+  change (bpow radix2 (-45)) with (/ IZR (2 ^ 45)). change (2 ^ 45)%Z with 35184372088832%Z. lra.
+Qed.
+Lemma FR_360 : FR 360%float = 360.
+Proof.
+  destruct (FR_SF_finite 360%float false 6333186975989760 (-44) eq_refl) as [_ E]. rewrite E. unfold dyad. simpl cond_Zopp.
+  change (bpow radix2 (-44)) with (/ IZR (2 ^ 44)). change (2 ^ 44)%Z with 17592186044416%Z. lra.
+Qed.
+Lemma u_720 : u (360 + 360) = bpow radix2 (-43).
+Proof.
+  apply (u_of_bounds _ 10); [|lia]. rewrite Rabs_pos_eq by lra.
+  change (bpow radix2 (10 - 1)) with (IZR (2 ^ 9)). change (bpow radix2 10) with (IZR (2 ^ 10)).
+  change (2 ^ 9)%Z with 512%Z. change (2 ^ 10)%Z with 1024%Z. lra.
+Qed.
+Lemma u_360 : u 360 = bpow radix2 (-44).
+Proof.
+  apply (u_of_bounds _ 9); [|lia]. rewrite Rabs_pos_eq by lra.
+  change (bpow radix2 (9 - 1)) with (IZR (2 ^ 8)). change (bpow radix2 9) with (IZR (2 ^ 9)).
+  change (2 ^ 8)%Z with 256%Z. change (2 ^ 9)%Z with 512%Z. lra.
+Qed.
+Lemma half_bpow : forall e, / 2 * bpow radix2 e = bpow radix2 (e - 1).
+Proof. intro e. replace (e - 1)%Z with (e + (-1))%Z by lia. rewrite bpow_plus. change (bpow radix2 (-1)) with (/ 2). ring. Qed.
+
+Local Open Scope float_scope.
+(* heading is congruent to 90 - yaw modulo 360, up to the rounding of the subtraction 90.0 - yaw and of the addition + 360.0 *)
+Lemma heading_close_deg_f : forall x, PrimFloat.is_finite x = true ->
+  exists n : Z, (Rabs (FR (Heading_y2h_deg x) - (90 - FR x) - 360 * IZR n) <= / 2 * u (90 - FR x) + bpow radix2 (-44))%R.
+Proof.
+  intros x Fx.
+  destruct (y2h_close_gen 90 360 x eq_refl eq_refl eq_refl eq_refl eq_refl eq_refl Fx) as [n H].
+  exists n. rewrite FR_90, FR_360, u_720, half_bpow in H. simpl Z.sub in H.
+  unfold Heading_y2h_deg, Heading_c90, Heading_c360. rewrite (Rmult_comm 360). exact H.
+Qed.
+Lemma yaw_close_deg_f : forall x, PrimFloat.is_finite x = true ->
+  exists n : Z, (Rabs (FR (Heading_h2y_deg x) - (90 - FR x) - 360 * IZR n) <=
+     / 2 * u (90 - FR x) + / 2 * u (FR (90 - x) + 180) + bpow radix2 (-44) + bpow radix2 (-45))%R.
+Proof.
+  intros x Fx.
+  destruct (h2y_close_gen 90 180 360 x eq_refl eq_refl eq_refl eq_refl eq_refl eq_refl eq_refl eq_refl eq_refl eq_refl eq_refl eq_refl eq_refl eq_refl Fx) as [n H].
+  exists n. rewrite FR_90, FR_180, FR_360, u_720, u_360, !half_bpow in H. simpl Z.sub in H.
+  unfold Heading_h2y_deg, Heading_c90, Heading_c360, Heading_c180. rewrite (Rmult_comm 360). exact H.
+Qed.
+(* radians: the same with the binary64 constants the source uses (math.pi / 2.0, math.pi, 2.0 * math.pi) *)
+Lemma heading_close_rad_f : forall x, PrimFloat.is_finite x = true ->
+  exists n : Z, (Rabs (FR (Heading_y2h_rad x) - (FR (Heading_pi / 2) - FR x) - IZR n * FR (2 * Heading_pi)) <=
+     / 2 * u (FR (Heading_pi / 2) - FR x) + / 2 * u (FR (2 * Heading_pi) + FR (2 * Heading_pi)))%R.
+Proof.
+  intros x Fx. apply (y2h_close_gen (Heading_pi / 2) (2 * Heading_pi) x); try exact Fx; vm_compute; reflexivity.
+Qed.
+Lemma yaw_close_rad_f : forall x, PrimFloat.is_finite x = true ->
+  exists n : Z, (Rabs (FR (Heading_h2y_rad x) - (FR (Heading_pi / 2) - FR x) - IZR n * FR (2 * Heading_pi)) <=
+     / 2 * u (FR (Heading_pi / 2) - FR x) + / 2 * u (FR (Heading_pi / 2 - x) + FR Heading_pi)
+     + / 2 * u (FR (2 * Heading_pi) + FR (2 * Heading_pi)) + / 2 * u (FR (2 * Heading_pi)))%R.
+Proof.
+  intros x Fx. apply (h2y_close_gen (Heading_pi / 2) Heading_pi (2 * Heading_pi) x); try exact Fx; vm_compute; reflexivity.
+Qed.
+
+(* ---------------------------------------------------------------- *)
 (* The code before the repair: heading of yaw 0 (east) is 270 instead of 90; yaw 300 gives -30 (outside
    [0,360) and not congruent to 150); heading 300 gives yaw -210 (outside [-180,180)). *)
 Lemma legacy_values :
@@ -10,9 +601,15 @@ Lemma legacy_values :
   Heading_show (Heading_y2h_deg_legacy 300) = Heading_show (-30) /\
   Heading_show (Heading_h2y_deg_legacy 300) = Heading_show (-210).
 Proof. vm_compute. repeat split. Qed.
+Lemma legacy_out_of_range :
+  (0 <=? Heading_y2h_deg_legacy 300) = false /\ (-180 <=? Heading_h2y_deg_legacy 300) = false.
+Proof. vm_compute. split; reflexivity. Qed.
 
 Lemma repaired_values :
   Heading_show (Heading_y2h_deg 0) = Heading_show 90 /\
   Heading_show (Heading_y2h_deg 300) = Heading_show 150 /\
-  Heading_show (Heading_h2y_deg 300) = Heading_show 150.
+  Heading_show (Heading_h2y_deg 300) = Heading_show 150 /\
+  (* the corner case: 90 - nextafter(90, +inf) is a tiny negative number; tiny + 360.0 rounds to 360.0 *)
+  Heading_show (Heading_fmod (90 - 0x1.6800000000001p+6) 360 + 360) = Heading_show 360 /\
+  Heading_show (Heading_y2h_deg 0x1.6800000000001p+6) = Heading_show 0.
 Proof. vm_compute. repeat split. Qed.
